@@ -257,3 +257,20 @@ def _(u):
     reward_pad_invariant(u, F, "PCTSPEnv._get_reward", "PCTSPEnv",
                          lambda u, B: state(u, B, N), N + 1,
                          extra_requires=lambda u, td, B: u.forall((B,), lambda b: td["penalty"].at(b, 0) == 0))
+
+
+SPF = "rl4co/envs/routing/spctsp/env.py"
+
+
+@unit("spctsp.init.stochastic", file=SPF, func="SPCTSPEnv.__init__", props=("C01",))
+def _(u):
+    # construction plumbing: an SPCTSPEnv built the normal way plays on the REVEALED (stochastic) prizes, a PCTSPEnv on the expected
+    # ones - the class attribute `_stochastic` of the subclass must not be shadowed by anything the base constructor stores
+    gen = u.ns(num_loc=5)
+    u.stub(PCTSPGenerator=lambda **kw: gen)
+    u.inline((F, "PCTSPEnv.__init__"))
+    for cls, file, want in (("SPCTSPEnv", SPF, True), ("PCTSPEnv", F, False)):
+        env = u.obj(file, cls, _make_spec=lambda g: None)
+        u.run(file, f"{cls}.__init__", selfobj=env, record=False)
+        got = u.interp.getattr(env, "stochastic", None)
+        u.prove(f"{cls}.stochastic-is-{want}", got is want, note=f"got {got!r}")
